@@ -59,7 +59,7 @@ def make_replay(prop, unit, item, failures, seed):
     # Kani concrete playback, when the failing obligation came from a harness
     for f in failures:
         if f["backend"] == "kani" and f.get("crate"):
-            r = V.run_kani_harness(f["crate"], f["harness"], f.get("timeout", 600), playback=True)
+            r = V.run_kani_harness(f["crate"], f["harness"], min(f.get("timeout", 600), 240), playback=True)
             if r.get("playback"):
                 rec["kani_concrete_values"] = r["playback"]
             break
